@@ -310,7 +310,9 @@ class Stream:
         Internal helper. Calls the IStreamListener function 'func' with
         the given args, guarding around errors.
         """
-        for x in self.listeners:
+        # iterate over a copy: a listener may unlisten itself (or another)
+        # from inside its callback
+        for x in list(self.listeners):
             try:
                 getattr(x, func)(*args, **kw)
             except Exception:
